@@ -636,7 +636,8 @@ Section StepProofs.
   Qed.
 
   (** a match that was offered and not chosen is kept, whatever happens to the database and to
-      the scheduler in between, and is offered again at the next step *)
+      the scheduler in between, and is offered again at the next step, read through the
+      union-find of that moment *)
   Theorem no_loss rules (x x1 : sstate Sst) e1 offs1 :
     step Sst filter sg rules x = Ok (x1, e1, offs1) ->
     forall k r, nth_error rules k = Some r ->
@@ -651,7 +652,8 @@ Section StepProofs.
                 (List.filter (fun i => negb (existsb (Nat.eqb i) chosen)) (seq 0 (length off))))) /\
       forall s2 st2 x2 e2 offs2,
         step Sst filter sg rules (mkSS s2 (ss_infos x1) st2) = Ok (x2, e2, offs2) ->
-        exists fr, nth_error offs2 k = Some (ri_res (nth k (ss_infos x1) info0) ++ fr) /\
+        exists fr, nth_error offs2 k
+                     = Some (map (canon_t s2) (ri_res (nth k (ss_infos x1) info0)) ++ fr) /\
                    (ri_seek (nth k (ss_infos x1) info0) = false -> fr = []).
   Proof.
     intros H k r Hr. destruct (step_inv _ _ _ _ _ H) as (ds & Hd & Hi & -> & _).
@@ -686,7 +688,7 @@ Proof.
   induction rules as [|r rtl IH]; intros k infos st Hi; [reflexivity|].
   cbn [decide map].
   assert (E : hd info0 infos = info0) by (destruct infos; [reflexivity|inversion Hi; subst; reflexivity]).
-  rewrite E. unfold all_filter at 1. cbn [offered ri_res ri_seek info0 app instantiate bind].
+  rewrite E. unfold all_filter at 1. cbn [offered ri_res ri_seek info0 map app instantiate bind].
   rewrite IH by (destruct infos; [constructor|inversion Hi; assumption]).
   reflexivity.
 Qed.
@@ -771,7 +773,7 @@ Proof.
   - rewrite Hx in Hr. exact Hr.
 Qed.
 
-(** ** F7: the property fails on the faithful model *)
+(** ** F7 (fixed in the code by re-canonicalising the side vector; the model follows) *)
 
 Definition f7_sg : list mergefn := [MUnionId; MUnionId; MUnionId; MOld].
 (** (rule ((= x (G y))) ((Seen y))) with A = 0, B = 1, G = 2, Seen = 3 *)
@@ -783,31 +785,30 @@ Definition f7_filter (st k : nat) (off : list tuple) : nat * (bool * list nat * 
 Definition f7_s0 : state := fst (add_term (fst (add_term (init 4) (T 0 []))) (T 2 [T 1 []])).
 Definition f7_x0 : sstate nat := mkSS f7_s0 [] 0.
 
-Theorem canonical_after_step_refuted :
-  exists x1 o1 s1 x2 o2,
-    canonical (ss_db f7_x0) /\
-    step nat f7_filter f7_sg f7_rules f7_x0 = Ok (x1, None, o1) /\ canonical (ss_db x1) /\
-    exec f7_sg (ss_db x1) (CUnion (T 0 []) (T 1 [])) = Ok s1 /\ canonical s1 /\
-    step nat f7_filter f7_sg f7_rules (mkSS s1 (ss_infos x1) (ss_sched x1)) = Ok (x2, None, o2) /\
-    ~ canonical (ss_db x2) /\
-    eval s1 (T 0 []) = eval s1 (T 1 []) /\
-    eval (ss_db x2) (T 3 [T 0 []]) = None.
+(** the former counterexample: the match held back across (union (A) (B)) is kept with B's old id
+    ([VId 1]), offered again as [VId 0], and applied canonically: (Seen (A)) holds *)
+Lemma f7_scenario_now_canonical :
+  exists x1 o1 s1 x2,
+    step nat f7_filter f7_sg f7_rules f7_x0 = Ok (x1, None, o1) /\
+    ri_res (nth 0 (ss_infos x1) info0) = [[Some (VId 1)]] /\
+    exec f7_sg (ss_db x1) (CUnion (T 0 []) (T 1 [])) = Ok s1 /\
+    step nat f7_filter f7_sg f7_rules (mkSS s1 (ss_infos x1) (ss_sched x1))
+      = Ok (x2, None, [[[Some (VId 0)]]]) /\
+    canonical (ss_db x2) /\
+    eval (ss_db x2) (T 3 [T 0 []]) = Some (VInt 0) /\
+    eval (ss_db x2) (T 3 [T 1 []]) = Some (VInt 0).
 Proof.
-  do 5 eexists.
-  split; [apply canonicalb_true; vm_compute; reflexivity|].
+  do 4 eexists.
+  split; [vm_compute; reflexivity|].
+  split; [reflexivity|].
+  split; [vm_compute; reflexivity|].
   split; [vm_compute; reflexivity|].
   split; [apply canonicalb_true; vm_compute; reflexivity|].
-  split; [vm_compute; reflexivity|].
-  split; [apply canonicalb_true; vm_compute; reflexivity|].
-  split; [vm_compute; reflexivity|].
-  split; [apply canonicalb_false; vm_compute; reflexivity|].
   split; vm_compute; reflexivity.
 Qed.
 
-(** ** the partial theorem: if every id held in the side vectors is still canonical when the step
-    runs (no union — by the user or by an earlier step's own actions — displaced it since it was
-    offered), the database is canonical after the step (constructor fragment of the Egg core, the
-    one [c04_inv_reachable] covers) *)
+(** ** the database is canonical after every step, for every scheduler (constructor fragment of
+    the Egg core, the one [c04_inv_reachable] covers) *)
 
 Definition ctor_action (a : action) : bool :=
   match a with AExpr _ | AUnion _ _ => true | _ => false end.
@@ -859,18 +860,37 @@ Proof.
   rewrite Forall_forall in Hc. apply nth_In. apply Hc, Hc'.
 Qed.
 
-Theorem canonical_after_step_partial Sst filter sg n U rules (x x' : sstate Sst) e offs :
+(** whatever the side vector holds, what the step offers (and applies) is canonical *)
+Lemma canon_t_canonical s t : Inv (uf s) -> canon_tuple s (canon_t s t) = true.
+Proof.
+  intros HI. unfold canon_tuple, canon_t. apply forallb_forall. intros o Ho.
+  apply in_map_iff in Ho. destruct Ho as (o0 & <- & _).
+  destruct o0 as [[i|z]|]; cbn [option_map canon canon_val]; try reflexivity.
+  apply Nat.eqb_eq. apply rep_idem. exact HI.
+Qed.
+
+Lemma offered_canonical s r ri t : Inv (uf s) -> tabs_canonical s ->
+  In t (offered s r ri) -> canon_tuple s t = true.
+Proof.
+  intros HI Ht Hin. unfold offered in Hin. apply in_app_or in Hin. destruct Hin as [Hin|Hin].
+  - apply in_map_iff in Hin. destruct Hin as (t0 & <- & _). apply canon_t_canonical, HI.
+  - destruct (ri_seek ri); [|destruct Hin].
+    unfold fresh in Hin. apply in_map_iff in Hin. destruct Hin as (env & <- & He).
+    apply canon_tuple_proj. eapply match_body_canon0; eauto.
+Qed.
+
+Theorem canonical_after_step Sst filter sg n U rules (x x' : sstate Sst) e offs :
   all_unionid sg -> WFs n U (ss_db x) ->
   Forall (fun r => forallb ctor_action (rhead r) = true) rules ->
-  Forall (fun ri => Forall (fun t => canon_tuple (ss_db x) t = true) (ri_res ri)) (ss_infos x) ->
   step Sst filter sg rules x = Ok (x', e, offs) ->
   (exists U', WFs n U' (ss_db x')) /\ canonical (ss_db x').
 Proof.
-  intros Hsg HW Hrules Hres Hstep.
+  intros Hsg HW Hrules Hstep.
   destruct (step_inv _ _ _ _ _ _ _ _ Hstep) as (ds & Hd & _ & _ & Hv).
   destruct (decide_spec _ _ _ _ _ _ _ _ _ Hd) as [_ Hn].
   set (s := ss_db x) in *.
   pose proof (canonical_tabs s (WFs_canonical _ _ _ HW)) as Ht.
+  pose proof (wm_inv _ _ (wf_mid _ _ _ HW)) as HI.
   assert (Hall : Forall emb_ctor (decided_cmds s rules ds)).
   { unfold decided_cmds. apply Forall_flat_map. apply Forall_forall.
     intros [r [[off ins] ri']] Hin. apply in_combine_nth in Hin. destruct Hin as (j & Hr & Hdd).
@@ -879,18 +899,27 @@ Proof.
     apply Forall_flat_map. apply Forall_forall. intros t Hti.
     apply match_cmds_ctor.
     - apply canon_env_of. apply (instantiate_ins_incl _ _ _ _ _ Hinst) in Hti.
-      rewrite Hoff in Hti. unfold offered in Hti. apply in_app_or in Hti. destruct Hti as [Hti|Hti].
-      + destruct (nth_in_or_default j (ss_infos x) info0) as [Hi|Hi].
-        * rewrite Forall_forall in Hres. specialize (Hres _ Hi). rewrite Forall_forall in Hres.
-          apply Hres, Hti.
-        * rewrite Hi in Hti. destruct Hti.
-      + destruct (ri_seek (nth j (ss_infos x) info0)); [|destruct Hti].
-        unfold fresh in Hti. apply in_map_iff in Hti. destruct Hti as (env & <- & He).
-        apply canon_tuple_proj. eapply match_body_canon0; eauto.
+      rewrite Hoff in Hti. eapply offered_canonical; eauto.
     - rewrite Forall_forall in Hrules. apply Hrules. eapply nth_error_In; eauto. }
   destruct (vrun_ctor_WFs sg Hsg _ n U s HW Hall) as (U' & s' & e' & Hv' & HW').
   rewrite Hv in Hv'. injection Hv' as <- _.
   split; [eauto|]. eapply WFs_canonical; eauto.
+Qed.
+
+(** every tuple a scheduler is ever offered is canonical (so the raw-id branch of [match_cmds]
+    is never taken from a well-formed state) *)
+Theorem offered_is_canonical Sst filter sg n U rules (x x' : sstate Sst) e offs :
+  WFs n U (ss_db x) -> step Sst filter sg rules x = Ok (x', e, offs) ->
+  Forall (Forall (fun t => canon_tuple (ss_db x) t = true)) offs.
+Proof.
+  intros HW Hstep. destruct (offered_all _ _ _ _ _ _ _ _ Hstep) as [Hl Ho].
+  pose proof (canonical_tabs _ (WFs_canonical _ _ _ HW)) as Ht.
+  pose proof (wm_inv _ _ (wf_mid _ _ _ HW)) as HI.
+  apply Forall_forall. intros off Hoff. destruct (In_nth_error _ _ Hoff) as (k & Hk).
+  assert (Hlt : k < length rules) by (rewrite <- Hl; apply nth_error_Some; congruence).
+  destruct (nth_error rules k) as [r|] eqn:Er; [|apply nth_error_None in Er; lia].
+  rewrite (Ho k r Er) in Hk. injection Hk as <-.
+  apply Forall_forall. intros t. apply offered_canonical; assumption.
 Qed.
 
 (* ====================================================================================== *)
